@@ -236,13 +236,15 @@ func (g *Gen) TxOps(tx string, n int, writable bool) []Op {
 		case x < 64:
 			e := g.existingPath()
 			dst := g.parentPath()
-			hazard := g.R.Intn(25) == 0 // rare hazard stream: destination inside the moved bucket / moved bucket edited earlier
-			if !hazard {
-				for try := 0; try < 8 && (strings.HasPrefix(pk(dst)+"\x01/", pk(e)+"\x01/") || g.touchedUnder(e)); try++ {
-					e, dst = g.existingPath(), g.parentPath()
-				}
-				if strings.HasPrefix(pk(dst)+"\x01/", pk(e)+"\x01/") || g.touchedUnder(e) {
-					continue
+			// mostly pick a destination that is neither the source parent nor inside the moved bucket
+			for try := 0; try < 8 && g.R.Intn(8) != 0 && (pk(dst) == pk(e[:len(e)-1]) || strings.HasPrefix(pk(dst)+"\x01/", pk(e)+"\x01/")); try++ {
+				dst = g.parentPath()
+			}
+			// prefer moving a bucket in which (or below which) something was edited earlier in this
+			// transaction: the opened sub-bucket objects must travel with it
+			if g.R.Intn(2) == 0 {
+				for try := 0; try < 6 && !g.touchedUnder(e); try++ {
+					e = g.existingPath()
 				}
 			}
 			ops = append(ops, Op{K: "mvb", Tx: tx, Path: e[:len(e)-1], Key: e[len(e)-1], Dst: dst})
@@ -452,6 +454,105 @@ func (g *Gen) CursorProgram() []Op {
 		} else {
 			ops = append(ops, Op{K: "commit"})
 		}
+	}
+	return ops
+}
+
+// MoveProgram: nested buckets A/X/Y/Z (some paged, some inline) are committed; then write
+// transactions edit something strictly below X (or X itself, or nothing) and move X elsewhere,
+// keep editing, commit, reopen and reuse the freed pages.
+func (g *Gen) MoveProgram() []Op {
+	var ops []Op
+	big := func(tx string, p []string, n int, pre string) {
+		for j := 0; j < n; j++ {
+			ops = append(ops, Op{K: "put", Tx: tx, Path: p, Key: fmt.Sprintf("%s%04d", pre, j), Val: strings.Repeat("v", 40+g.R.Intn(80))})
+		}
+	}
+	A, B := []string{"A"}, []string{"B"}
+	X := []string{"A", "X"}
+	Y := []string{"A", "X", "Y"}
+	Z := []string{"A", "X", "Y", "Z"}
+	ops = append(ops, Op{K: "beginw"},
+		Op{K: "mkb", Tx: "w", Key: "A"}, Op{K: "mkb", Tx: "w", Key: "B"},
+		Op{K: "mkb", Tx: "w", Path: A, Key: "X"}, Op{K: "mkb", Tx: "w", Path: X, Key: "Y"},
+		Op{K: "mkb", Tx: "w", Path: Y, Key: "Z"}, Op{K: "mkb", Tx: "w", Path: Y, Key: "W"})
+	if g.R.Intn(3) != 0 {
+		big("w", Z, 30+g.R.Intn(120), "z") // paged
+	} else {
+		ops = append(ops, Op{K: "put", Tx: "w", Path: Z, Key: "k", Val: "v"}) // inline
+	}
+	if g.R.Intn(2) == 0 {
+		big("w", Y, 20+g.R.Intn(80), "y")
+	}
+	if g.R.Intn(2) == 0 {
+		big("w", X, 20+g.R.Intn(80), "x")
+	}
+	ops = append(ops, Op{K: "setseq", Tx: "w", Path: Y, N: 7}, Op{K: "commit"})
+	if g.R.Intn(2) == 0 {
+		ops = append(ops, Op{K: "reopen"})
+	}
+	rounds := 1 + g.R.Intn(2)
+	cur := X // where X currently lives
+	other := B
+	for r := 0; r < rounds; r++ {
+		ops = append(ops, Op{K: "beginw"})
+		sub := func(rel ...string) []string { return append(append([]string{}, cur...), rel...) }
+		// edits before the move
+		for k := 0; k < 1+g.R.Intn(3); k++ {
+			switch []int{0, 0, 0, 1, 2, 3, 4, 5, 6, 6, 7}[g.R.Intn(11)] {
+			case 0:
+				ops = append(ops, Op{K: "rmb", Tx: "w", Path: sub("Y"), Key: "Z"})
+			case 1:
+				ops = append(ops, Op{K: "put", Tx: "w", Path: sub("Y"), Key: "new", Val: "value"})
+			case 2:
+				ops = append(ops, Op{K: "mkbi", Tx: "w", Path: sub("Y"), Key: "N"})
+			case 3:
+				ops = append(ops, Op{K: "nextseq", Tx: "w", Path: sub("Y")})
+			case 4:
+				ops = append(ops, Op{K: "put", Tx: "w", Path: sub(), Key: "direct", Val: "v"})
+			case 5:
+				ops = append(ops, Op{K: "del", Tx: "w", Path: sub("Y", "Z"), Key: "z0003"})
+			case 6:
+				ops = append(ops, Op{K: "rmb", Tx: "w", Path: sub("Y"), Key: "W"})
+			case 7:
+				ops = append(ops, Op{K: "get", Tx: "w", Path: sub("Y", "Z"), Key: "z0001"}) // open only
+			}
+		}
+		dst := other
+		if g.R.Intn(4) == 0 {
+			dst = nil // to the root
+		}
+		ops = append(ops, Op{K: "mvb", Tx: "w", Path: cur[:len(cur)-1], Key: "X", Dst: dst})
+		newCur := append(append([]string{}, dst...), "X")
+		// edits after the move
+		for k := 0; k < g.R.Intn(3); k++ {
+			p := append(append([]string{}, newCur...), "Y")
+			switch g.R.Intn(3) {
+			case 0:
+				ops = append(ops, Op{K: "put", Tx: "w", Path: p, Key: "after", Val: "move"})
+			case 1:
+				ops = append(ops, Op{K: "dump", Tx: "w", Path: newCur})
+			case 2:
+				ops = append(ops, Op{K: "mkbi", Tx: "w", Path: p, Key: "M"})
+			}
+		}
+		if g.R.Intn(6) == 0 {
+			ops = append(ops, Op{K: "rollback"})
+		} else {
+			ops = append(ops, Op{K: "commit"})
+			other = cur[:len(cur)-1]
+			if len(other) == 0 {
+				other = A
+			}
+			cur = newCur
+		}
+		if g.R.Intn(2) == 0 {
+			ops = append(ops, Op{K: "reopen"})
+		}
+		// reuse freed pages
+		ops = append(ops, Op{K: "beginw"})
+		big("w", B, 20+g.R.Intn(100), fmt.Sprintf("r%d", r))
+		ops = append(ops, Op{K: "commit"})
 	}
 	return ops
 }
